@@ -53,10 +53,7 @@ func checkC02(tier, replay string) int {
 		v   uint64
 	}
 	var jobs []job
-	archs := []*refsem.Arch{refsem.ArchByName("x86_64")}
-	if tier == "thorough" {
-		archs = refsem.Archs()
-	}
+	archs := refsem.Archs() // all four architectures in both tiers (32-bit ABIs must not treat operands differently)
 	for _, a := range archs {
 		for _, op := range allOps {
 			for arg := uint32(0); arg < 6; arg++ {
@@ -114,7 +111,19 @@ func checkC02(tier, replay string) int {
 	if tier == "thorough" {
 		pairArgs = []uint32{0, 1, 2, 3, 4, 5}
 	}
-	a := archs[0]
+	for _, a := range archs {
+		c02Pairs(ctx, r, a, vs, pairOps, pairArgs, func(a *refsem.Arch, op seccomp.Operation, arg uint32, v uint64) *seccomp.Policy { return mk(job{a, op, arg, v}) })
+	}
+	return c02Finish(ctx, r)
+}
+
+func c02Finish(ctx *evid.Ctx, r *compileRun) int {
+	r.finish("8 operations x 6 argument positions x operand alphabet V64 (values at every 32-bit boundary, single bits, half patterns) x every cell of the exact partition of the actual argument's two words (below/equal/above each operand half, every mask sign vector) x every other word the program loads, under both byte orders of seccomp_data, on all four architectures; plus all literal (operand, actual) pairs of V64 x V64 and all pairs of operations on one argument; non-trivial = program yields >= 2 distinct decisions")
+	ctx.Assumptions = []string{"Go uint64 arithmetic is the reference relation", "the byte-order hook VerifSetByteOrder only replaces the package variable nativeEndian"}
+	return ctx.Finish()
+}
+
+func c02Pairs(ctx *evid.Ctx, r *compileRun, a *refsem.Arch, vs []uint64, pairOps []seccomp.Operation, pairArgs []uint32, mkJob func(a *refsem.Arch, op seccomp.Operation, arg uint32, v uint64) *seccomp.Policy) {
 	nr := mustNum(a, s1Names(a)[1])
 	type pj struct {
 		op  seccomp.Operation
@@ -134,7 +143,7 @@ func checkC02(tier, replay string) int {
 	}
 	parallelFor(len(pjobs), func(i int) {
 		j := pjobs[i]
-		p := mk(job{a, j.op, j.arg, j.v})
+		p := mkJob(a, j.op, j.arg, j.v)
 		insts, err, pan := engine.Compile(a, p, j.big)
 		if err != nil || pan != nil {
 			ctx.Violation(fmt.Sprintf("C02:compile:%s:%d:%#x", j.op, j.arg, j.v), fmt.Sprintf("single-condition policy does not compile: %v %v", err, pan), engine.ToJSON(a, p, j.big))
@@ -183,7 +192,4 @@ func checkC02(tier, replay string) int {
 				{Argument: 3, Operation: j.o1, Value: j.v1}, {Argument: 3, Operation: j.o2, Value: j.v2}}}}}}}
 		r.one("S2/two-on-one-arg", a, p, engine.Options{})
 	})
-	r.finish("8 operations x 6 argument positions x operand alphabet V64 (values at every 32-bit boundary, single bits, half patterns) x every cell of the exact partition of the actual argument's two words (below/equal/above each operand half, every mask sign vector) x every other word the program loads, under both byte orders of seccomp_data; plus all literal (operand, actual) pairs of V64 x V64 and all pairs of operations on one argument; non-trivial = program yields >= 2 distinct decisions")
-	ctx.Assumptions = []string{"Go uint64 arithmetic is the reference relation", "the byte-order hook VerifSetByteOrder only replaces the package variable nativeEndian"}
-	return ctx.Finish()
 }
